@@ -262,8 +262,9 @@ def main(prop, mod, tier, seed):
         wall_s=round(wall, 2),
         violations=len(violations),
     )
-    os.makedirs(os.path.join(HERE, 'evidence'), exist_ok=True)
-    with open(os.path.join(HERE, 'evidence', prop + '.json'), 'w') as f:
+    evdir = os.environ.get('VERIF_EVIDENCE_DIR') or os.path.join(HERE, 'evidence')   # mutant evaluations write elsewhere
+    os.makedirs(evdir, exist_ok=True)
+    with open(os.path.join(evdir, prop + '.json'), 'w') as f:
         json.dump(evidence, f, indent=1, default=str)
     print('%s %s: units=%d obligations=%d discharged=%d undecided=%d errors=%d violations=%d wall=%.1fs'
           % (prop, tier, len(units), total, discharged, len(undecided), len(errors), len(violations), wall))
